@@ -113,7 +113,7 @@ func genE2EPipeProto(t *rapid.T, proto string) e2ePipeCase {
 	envs := map[string]*wire.GenEnv{"ipfix": wire.NewGenEnv("ipfix"), "nf9": wire.NewGenEnv("nf9")}
 	envs["ipfix"].NoEnterprise = true
 	envs["ipfix"].Big, envs["nf9"].Big = true, true
-	c := e2ePipeCase{P: genPipeline(t, proto, envs, 250)}
+	c := e2ePipeCase{P: genPipeline(t, proto, envs, 250, "e2e")}
 	c.Ambient = genAmbient(t)
 	if c.P.UDPSize > 9000 {
 		c.P.UDPSize = 9000
